@@ -8,6 +8,7 @@ package server
 // compared with the rows of the central evaluation computed by TLC.
 
 import (
+	"github.com/mimecast/dtail/internal/mapr/funcs"
 	"bytes"
 	"context"
 	"fmt"
@@ -444,4 +445,92 @@ func TestC05Magnitude(t *testing.T) {
 		rows = append(rows, strings.Split(l, ","))
 	}
 	vWriteJSON(t, "VERIF_OUT", map[string]interface{}{"n": n, "rows": rows, "wire": append(append([]string{}, m1[0]...), m2[0]...)})
+}
+
+// Set clause with (nested) functions: "set $k = f(g(u))" means f applied to the result of g applied to u.  The central
+// evaluation composes the two primitives (maskdigits, md5sum - trusted) in that order per line and groups by the result.
+func TestC05SetFunctions(t *testing.T) {
+	vInit("none")
+	c05Install()
+	dir, _ := os.MkdirTemp("", "c05f-")
+	defer os.RemoveAll(dir)
+	users := []string{"user1", "user22", "x9", "user1", "nodigits", "user22", "7", "user1"}
+	type bad struct {
+		Query string            `json:"query"`
+		Want  map[string]string `json:"want"`
+		Got   [][]string        `json:"got"`
+	}
+	var bads []bad
+	evals := 0
+	stacks := map[string]func(string) string{
+		"maskdigits(u)":         func(s string) string { return funcs.MaskDigits(s) },
+		"md5sum(u)":             func(s string) string { return funcs.Md5Sum(s) },
+		"md5sum(maskdigits(u))": func(s string) string { return funcs.Md5Sum(funcs.MaskDigits(s)) },
+		"maskdigits(md5sum(u))": func(s string) string { return funcs.MaskDigits(funcs.Md5Sum(s)) },
+		"maskdigits(maskdigits(md5sum(u)))": func(s string) string { return funcs.MaskDigits(funcs.MaskDigits(funcs.Md5Sum(s))) },
+	}
+	i := 0
+	for expr, f := range stacks {
+		i++
+		outfile := filepath.Join(dir, fmt.Sprintf("set%d.csv", i))
+		qs := "select $k,count($line) set $k = " + expr + " group by $k logformat generickv outfile \"" + outfile + "\""
+		query, err := mapr.NewQuery(qs)
+		if err != nil {
+			bads = append(bads, bad{qs, map[string]string{"error": err.Error()}, nil})
+			continue
+		}
+		var l1, l2 []string
+		want := map[string]int{}
+		for k, u := range users {
+			line := "u=" + u + "|n=" + strconv.Itoa(k)
+			if k%2 == 0 {
+				l1 = append(l1, line)
+			} else {
+				l2 = append(l2, line)
+			}
+			want[f(u)]++
+		}
+		m1, p := c05Server(qs, [][]string{l1}, "")
+		m2, p2 := c05Server(qs, [][]string{l2}, "")
+		if p != "" || p2 != "" {
+			t.Fatal(p + p2)
+		}
+		global := mapr.NewGlobalGroupSet()
+		c1 := client.NewAggregate("server1", query, global)
+		c2 := client.NewAggregate("server2", query, global)
+		for _, m := range m1[0] {
+			c1.Aggregate(m)
+		}
+		for _, m := range m2[0] {
+			c2.Aggregate(m)
+		}
+		if err := global.WriteResult(query, true); err != nil {
+			t.Fatal(err)
+		}
+		data, _ := os.ReadFile(outfile)
+		var rows [][]string
+		got := map[string]string{}
+		for _, l := range strings.Split(strings.TrimRight(string(data), "\n"), "\n")[1:] {
+			r := strings.Split(l, ",")
+			rows = append(rows, r)
+			if len(r) == 2 {
+				got[r[0]] = r[1]
+			}
+		}
+		evals++
+		ws := map[string]string{}
+		for k, v := range want {
+			ws[k] = strconv.Itoa(v)
+		}
+		same := len(ws) == len(got) && len(rows) == len(ws)
+		for k, v := range ws {
+			if got[k] != v {
+				same = false
+			}
+		}
+		if !same {
+			bads = append(bads, bad{qs, ws, rows})
+		}
+	}
+	vWriteJSON(t, "VERIF_OUT", map[string]interface{}{"evaluations": evals, "bad": bads})
 }
